@@ -1,6 +1,7 @@
 package main
 
 import (
+	"regexp"
 	"encoding/json"
 	"flag"
 	"fmt"
@@ -45,7 +46,43 @@ func setup() *Engine {
 	if err != nil {
 		fatal("%v", err)
 	}
-	l, err := loadRepo(overlay)
+	broken := map[string]string{}
+	var l *Loaded
+	for attempt := 0; attempt < 4; attempt++ {
+		l, err = loadRepo(overlay)
+		if err == nil {
+			break
+		}
+		// clauses that no longer type-check against the current code are dropped (their obligations
+		// are reported as failed: "stale contract"), everything else is still checked
+		specErr := regexp.MustCompile(`(/repo/[^ :]*zz_verif_spec\.go):(\d+):\d+: (.*)`)
+		found := false
+		for _, ln := range strings.Split(err.Error(), "\n") {
+			m := specErr.FindStringSubmatch(ln)
+			if m == nil {
+				continue
+			}
+			var lineNo int
+			fmt.Sscanf(m[2], "%d", &lineNo)
+			src := strings.Split(string(overlay[m[1]]), "\n")
+			if lineNo-1 < len(src) {
+				fm := regexp.MustCompile(`^func ([A-Za-z0-9_]+)\(`).FindStringSubmatch(src[lineNo-1])
+				if fm != nil && (strings.HasPrefix(fm[1], "spec_") || strings.HasPrefix(fm[1], "derive_") || strings.HasPrefix(fm[1], "axiom_") || strings.HasPrefix(fm[1], "globalinv_")) {
+					broken[fm[1]] = m[3]
+					src[lineNo-1] = "// stale: " + fm[1]
+					overlay[m[1]] = []byte(strings.Join(src, "\n"))
+					found = true
+				}
+			}
+		}
+		if !found {
+			break
+		}
+		// imports that became unused by the removal are dropped too
+		for path, data := range overlay {
+			overlay[path] = pruneImports(data)
+		}
+	}
 	if err != nil {
 		if os.Getenv("GOVC_DEBUG") != "" {
 			for k, v := range overlay {
@@ -55,8 +92,31 @@ func setup() *Engine {
 		fatal("%v", err)
 	}
 	e := newEngine(l)
+	e.broken = broken
 	cs.resolve(e)
+	for fn, msg := range broken {
+		e.stale = append(e.stale, fmt.Sprintf("clause %s no longer type-checks: %s", fn, msg))
+	}
 	return e
+}
+
+func pruneImports(data []byte) []byte {
+	src := string(data)
+	i := strings.Index(src, "import (")
+	j := strings.Index(src, "\n)\n")
+	if i < 0 || j < 0 {
+		return data
+	}
+	body := src[j+3:]
+	var keep []string
+	for _, ln := range strings.Split(src[i+len("import ("):j], "\n") {
+		f := strings.Fields(ln)
+		if len(f) == 2 && !regexp.MustCompile(`\b`+regexp.QuoteMeta(f[0])+`\.`).MatchString(body) {
+			continue
+		}
+		keep = append(keep, ln)
+	}
+	return []byte(src[:i] + "import (" + strings.Join(keep, "\n") + src[j:])
 }
 
 func (ob *Obligation) counts(prop string, safety bool) bool {
